@@ -145,9 +145,26 @@ def random_schedules(seed, n, big):
             ents += [{"k": {"d": d, "p": p}, "v": r.choice(VALS)} for p in pks if p != p0]
             r.shuffle(ents)
             steps.append({"ev": "Store", "set": ents})
+        def await_cancelled():
+            # a reader whose context is ALREADY cancelled when it calls Await (mostly for a key that is stored): it returns
+            # the context error or the value - whichever, what it leaves behind must not reach any later reader
+            nonlocal nr
+            nr += 1
+            stored = sorted(cur)
+            k = {"d": stored[0][0], "p": stored[0][1]} if stored and r.random() < 0.75 else key()
+            if stored and r.random() < 0.75:
+                d_, p_ = r.choice(stored)
+                k = {"d": d_, "p": p_}
+            steps.append({"ev": "AwaitC", "r": "r%d" % nr, "k": k})
+
+        precancel = kind == "cancel" or i % 4 == 3
         for _ in range(L):
             x = r.random()
-            if x < 0.35 and nr < maxr + 6:
+            if precancel and r.random() < 0.25 and nr < maxr + 10:
+                await_cancelled()
+                if r.random() < 0.6:
+                    await_()
+            elif x < 0.35 and nr < maxr + 6:
                 await_()
             elif x < 0.70:
                 store()
